@@ -19,7 +19,7 @@ import numpy as np
 from hypothesis import strategies as st
 
 from tqv import gen
-from tqv.core import Inconclusive, SubCheck, Violation, req
+from tqv.core import Inconclusive, SubCheck, Violation, req, unlisted_rejection
 from tqv.props import _c08_helpers as H
 
 # caller-owned arrays handed to the library must come back unchanged (see tqv/purity.py)
@@ -543,7 +543,7 @@ def check_validation(case):
         _make(case, prob=prob, pred=pred, reps=1)
     except ValueError:
         return
-    raise Violation(f"XORGame accepted an invalid input of kind '{kind}' (prob sum {prob.sum()!r}, min {prob.min()!r}, pred shape {pred.shape}, prob shape {prob.shape}) without ValueError", f"accepted:{kind}")
+    unlisted_rejection(f"XORGame accepted an invalid input of kind '{kind}' (prob sum {prob.sum()!r}, min {prob.min()!r}, pred shape {pred.shape}, prob shape {prob.shape}) without ValueError", f"accepted:{kind}")
 
 
 def nt_valid(case):
